@@ -318,7 +318,14 @@ func genHand(seed int64, allow map[string]bool) *Scenario {
 	if r.Intn(5) == 0 {
 		b.sc.SlowAct = 15 + r.Intn(25)
 	}
-	k := 2 + r.Intn(min(b.sc.N-1, 6))
+	early := ""
+	if b.sc.N >= 4 && r.Intn(5) == 0 {
+		// the FIRST player of the list buys in but never sits in, and walks away while a hand is running (he is in no hand:
+		// everybody behind him moves up one place in the player list)
+		early = b.newID()
+		b.add(Op{Op: "reserve", ID: early, Seat: -1, Chips: 9})
+	}
+	k := 2 + r.Intn(min(b.sc.N-1-len(b.ids), 6))
 	b.seatPlayers(k)
 	if r.Intn(2) == 0 && len(b.ids) < b.sc.N { // a seated player who never joins (sitting out)
 		b.add(Op{Op: "reserve", ID: b.newID(), Seat: -1, Chips: 9})
@@ -351,6 +358,9 @@ func genHand(seed int64, allow map[string]bool) *Scenario {
 		}
 		if b.sc.ActionTime > 0 && r.Intn(6) == 0 {
 			hp.ThinkMs, hp.ThinkTurn = 2300, r.Intn(3)
+		}
+		if early != "" && h == 0 {
+			hp.Inj = append(hp.Inj, Inj{At: []string{"turn0", "turn1", "blinds", "ready2"}[r.Intn(4)], Ops: []Op{{Op: "leave", IDs: []string{early}}}})
 		}
 		if r.Intn(4) == 0 {
 			// answers that arrive after the hand has produced a collection request but before the updater has published
